@@ -737,6 +737,112 @@ def mutate_thing(rng, t):
     return mutate(rng, t)
 
 
+
+# --------------------------------------------------------------------- near-equal floats
+# Every float that enters an equality test (weighting constants, exponents, interval end points,
+# grid coordinates, FiniteSet numbers) is compared EXACTLY by the code and by the model (Q).
+# These helpers rewrite one such float of a descriptor, so that pairs / triples differ by a
+# relative 1e-16 ... 1e-4 or are both tiny; a tolerance-based comparison then disagrees with the model.
+NEAR_RELS = [1e-16, 1e-12, 1e-9, 1e-6, 8e-6, 1e-5, 1e-4]
+TINY = [1e-9, 8e-9, 1e-12, 3e-9]
+
+
+def _finite(x):
+    return x not in (INF, -INF)
+
+
+def map_floats(d, fn):
+    """Apply fn(kind, x) to every finite float slot of a thing/obj descriptor (fixed traversal order)."""
+    def mw(w):
+        if w[0] == 'const':
+            return ('const', w[1], fn('const', w[2]), fn('expo', w[3]) if _finite(w[3]) else w[3])
+        if w[0] in ('array', 'matrix'):
+            return (w[0], w[1], w[2], fn('expo', w[3]) if _finite(w[3]) else w[3])
+        return w
+
+    def mt(t):
+        return (t[0], t[1], mw(t[2]))
+
+    def mi(ends):
+        return tuple((fn('lo', a) if _finite(a) else a, fn('hi', b) if _finite(b) else b) for a, b in ends)
+
+    def mg(grid):
+        return tuple(tuple(fn('grid', x) for x in vec) for vec in grid)
+
+    k = d[0]
+    if k == 'W':
+        return ('W', mw(d[1]), d[2])
+    if k == 'P':
+        return ('P', (mi(d[1][0]), mg(d[1][1])))
+    if k in ('cart', 'union', 'inter'):
+        return (k, tuple(map_floats(x, fn) for x in d[1]))
+    if k == 'finite':
+        return (k, tuple(('num', fn('atom', a[1]), 'float') if a[0] == 'num' else a for a in d[1]))
+    if k == 'intv':
+        return (k, mi(d[1]))
+    if k == 'grid':
+        return (k, mg(d[1]))
+    if k == 'tensor':
+        return (k, mt(d[1]))
+    if k == 'discr':
+        return (k, (mi(d[1][0]), mg(d[1][1])), mt(d[2]))
+    if k == 'prod':
+        return (k, tuple(map_floats(x, fn) for x in d[1]), mw(d[2]), d[3])
+    return d
+
+
+def count_floats(d):
+    n = [0]
+
+    def fn(kind, x):
+        n[0] += 1
+        return x
+    map_floats(d, fn)
+    return n[0]
+
+
+def rewrite_slot(d, slot, op):
+    """Apply op(kind, x) to the slot-th float of d only."""
+    i = [0]
+
+    def fn(kind, x):
+        j = i[0]
+        i[0] += 1
+        return op(kind, x) if j == slot else x
+    return map_floats(d, fn)
+
+
+def _scale(rel):
+    def op(kind, x):
+        if x == 0:
+            # no relative neighbour: a tiny absolute one (outward for interval ends)
+            return -1e-12 if kind == 'lo' else 1e-12
+        y = x * (1.0 + rel)
+        if kind == 'lo':                     # keep grids inside their interval: move ends outward
+            y = x * (1.0 + rel) if x < 0 else x / (1.0 + rel)
+        elif kind == 'hi':
+            y = x * (1.0 + rel) if x > 0 else x / (1.0 + rel)
+        return y
+    return op
+
+
+def near_chain(rng, a, length=3):
+    """[a0, a1, ...]: the same descriptor with ONE float slot rewritten to near-equal values
+    (a relative step per link, or all tiny).  None if a has no float slot."""
+    n = count_floats(a)
+    if n == 0:
+        return None
+    slot = rng.randrange(n)
+    if rng.random() < 0.25:
+        vals = rng.sample(TINY, min(length, len(TINY)))
+        return [rewrite_slot(a, slot, (lambda kind, x, v=v: (-v if kind == 'lo' else v))) for v in vals]
+    rel = rng.choice(NEAR_RELS)
+    out = [a]
+    for _ in range(length - 1):
+        out.append(rewrite_slot(out[-1], slot, _scale(rel)))
+    return out
+
+
 # --------------------------------------------------------------------- observing the implementation
 def obs_eq(a, b):
     try:
@@ -770,13 +876,16 @@ def measure_variants():
 
 RULE = ('eqhash: pairs (a, b) of descriptors of sets / fields / interval products / grids / partitions / weightings / '
         'tensor, discretized and nested weighted product spaces: a random, b = the same object, an independent '
-        'rebuild (also through the other constructor spelling), a one-field mutation at a random depth, or '
+        'rebuild (also through the other constructor spelling), a one-field mutation at a random depth, the same '
+        'descriptor with ONE float (weighting constant, exponent, interval end, grid coordinate, FiniteSet number) moved '
+        'by a relative 1e-16..1e-4 or both tiny (1e-9 vs 8e-9) -- floats are compared exactly by the model --, or '
         'independent; observed: a == b, b == a (True/False/raises), hash success and hash equality; a case is '
         'non-trivial when a and b have the same class; distinct by descriptor pair. member: (space, space of x) pairs '
         'built the same way. derived: a random (nested / power / weighted) space and one of astype(16 dtypes), real_space, '
         'complex_space, pspace[int | slice | list | tuple of int/slice], byaxis[int | slice | list]; result descriptor or '
         'error class compared exactly; distinct by (space, operation)')
-ASSUMPTIONS = ['coordinates, constants and exponents are dyadic rationals or +-inf, so float comparison is exact; NaN is '
+ASSUMPTIONS = ['coordinates, constants and exponents are finite floats (taken as exact rationals) or +-inf and every equality '
+               'of floats in the model is exact ==, as in the code (near-equal pairs are generated on purpose); NaN is '
                'outside the model (rejected by IntervalProd/RectGrid/ConstWeighting constructors)',
                'objects are immutable while observed (the hash of an array weighting reads the array bytes)',
                'equal hash keys give equal Python hashes (hash is a function of the tuple structure and leaf values)',
@@ -803,10 +912,17 @@ def eq_cases(rng, tier, v):
         elif r < 0.3:
             b, mode = a, 'rebuild'
             how_b = rng.choice([0, 1, 2])
-        elif r < 0.85:
+        elif r < 0.7:
             b, mode = mutate_thing(rng, a), 'mutate'
             if rng.random() < 0.3:
                 b = mutate_thing(rng, b)
+        elif r < 0.88:
+            # one float differs by a relative 1e-16 .. 1e-4, or both are tiny: exact comparison decides
+            ch = near_chain(rng, a, 2)
+            if ch is None:
+                b, mode = mutate_thing(rng, a), 'mutate'
+            else:
+                (a, b), mode = ch, 'near'
         else:
             b, mode = gen_thing(rng), 'other'
         try:
@@ -842,6 +958,10 @@ def in_cases(rng, tier, v):
             cs.add(term, {'S': repr(S)[:300], 'x': repr(other)}, None)
             continue
         xs = S if r < 0.4 else mutate(rng, S)
+        if 0.4 <= r < 0.6:
+            ch = near_chain(rng, S, 2)
+            if ch is not None:
+                S, xs = ch
         try:
             oS = build(S, ctx)
             oX = build(xs, ctx, rng.choice([0, 1]))
@@ -1763,11 +1883,83 @@ def probe_indexing(rng, tier, out):
                               int(np.prod(shape)), shape, idx)))
 
 
+
+def probe_near(rng, tier, out):
+    """Equality laws on triples whose only difference is ONE float at near-equal values
+    (relative 1e-16 .. 1e-4 per link, or all tiny): a tolerance in any __eq__ breaks transitivity,
+    hash consistency or set/dict behaviour here."""
+    n = 300 if tier == 'quick' else 2000
+    ctx = Ctx()
+    for _ in range(n):
+        base = gen_thing(rng) if rng.random() < 0.6 else gen_space(rng, 1)
+        ch = near_chain(rng, base, 3)
+        if ch is None:
+            continue
+        try:
+            objs = [build_thing(t, ctx) for t in ch]
+        except Exception:
+            continue
+        cls = cls_of(ch[0])
+        head = _RP_HEAD + "ch = %r\nobjs = [H.build_thing(t, ctx) for t in ch]\n" % (ch,)
+        E = [[obs_eq(x, y) for y in objs] for x in objs]
+        ok_total = all(e != 'EE' for row in E for e in row)
+        ok_sym = all(E[i][j] == E[j][i] for i in range(3) for j in range(3))
+        ok_trans = all(not (E[i][j] == 'TT' and E[j][k] == 'TT') or E[i][k] == 'TT'
+                       for i in range(3) for j in range(3) for k in range(3))
+        H_ = [obs_hash(x) for x in objs]
+        ok_hash = all(E[i][j] != 'TT' or H_[i] == H_[j] for i in range(3) for j in range(3))
+        # the floats of the three descriptors decide: equal descriptors <=> equal objects
+        ok_exact = all((E[i][j] == 'TT') == (_desc_equal(ch[i], ch[j])) for i in range(3) for j in range(3))
+        # set / dict behaviour: the number of distinct keys is the number of equivalence classes
+        if all(h is not None for h in H_) and ok_total:
+            classes = []
+            for i in range(3):
+                if not any(E[i][j] == 'TT' for j in classes):
+                    classes.append(i)
+            ok_set = _safe(lambda: len(set(objs)) == len(classes) and len({o: 1 for o in objs}) == len(classes)
+                           and all(objs[j] in {objs[i]} for i in range(3) for j in range(3) if E[i][j] == 'TT'))
+        else:
+            ok_set = True
+        for ok, law, what, snippet in [
+            (ok_total and ok_sym, 'sym', 'never raises, symmetric',
+             "E = [[H.obs_eq(x, y) for y in objs] for x in objs]\nobserved = E\nok = all(e != 'EE' for r in E for e in r) and all(E[i][j] == E[j][i] for i in range(3) for j in range(3))\n"),
+            (ok_trans, 'trans', 'transitive',
+             "E = [[H.obs_eq(x, y) for y in objs] for x in objs]\nobserved = E\nok = all(not (E[i][j] == 'TT' and E[j][k] == 'TT') or E[i][k] == 'TT' for i in range(3) for j in range(3) for k in range(3))\n"),
+            (ok_hash, 'hash', 'equal objects hash equal',
+             "observed = [(H.obs_eq(x, y), H.obs_hash(x) == H.obs_hash(y)) for x in objs for y in objs]\nok = all(h or e != 'TT' for e, h in observed)\n"),
+            (ok_set, 'setdict', 'set/dict keys = equivalence classes',
+             "E = [[H.obs_eq(x, y) for y in objs] for x in objs]\ncl = []\nfor i in range(3):\n    if not any(E[i][j] == 'TT' for j in cl):\n        cl.append(i)\nobserved = (len(set(objs)), len(cl)); ok = observed[0] == observed[1]\n"),
+            (ok_exact, 'exact', 'objects are equal exactly when all their float parameters are',
+             "observed = [[H.obs_eq(x, y) for y in objs] for x in objs]\nok = all((observed[i][j] == 'TT') == H._desc_equal(ch[i], ch[j]) for i in range(3) for j in range(3))\n"),
+        ]:
+            out.append(C.Probe(ok, law_key('near-' + law, ch), 'near-equal float parameters: %s (%s)' % (what, cls),
+                               head + snippet))
+        # membership agrees with space equality
+        if ch[0][0] in ('tensor', 'discr', 'prod'):
+            try:
+                xs = [o.element() for o in objs]
+                ok = all((xs[i] in objs[j]) == (E[i][j] == 'TT') for i in range(3) for j in range(3))
+            except Exception:
+                ok = False
+            out.append(C.Probe(ok, law_key('near-membership', ch), 'near-equal float parameters: x in S iff x.space == S (%s)' % cls,
+                               head + "xs = [o.element() for o in objs]\nok = all((xs[i] in objs[j]) == bool(objs[i] == objs[j]) for i in range(3) for j in range(3))\n"))
+
+
+def _desc_equal(a, b):
+    """Descriptors denote equal objects as far as the floats go: same after erasing weighting class
+    families and numeric types of FiniteSet atoms (only called on chains that differ in one float)."""
+    fa, fb = [], []
+    map_floats(a, lambda k, x: fa.append(x) or x)
+    map_floats(b, lambda k, x: fb.append(x) or x)
+    return fa == fb
+
+
 def probes(rng, tier):
     import warnings
     warnings.simplefilter('ignore')
     out = []
     probe_laws(rng, tier, out)
+    probe_near(rng, tier, out)
     probe_membership(rng, tier, out)
     probe_element(rng, tier, out)
     probe_derived(rng, tier, out)
